@@ -11,12 +11,12 @@ import (
 )
 
 func init() {
-	vh.Register("c09", "replay", replayCmd)
+	vh.Register("c09", "replay", ReplayCmd)
 	vh.Register("c09", "record", recordCmd)
 }
 
-// replayCmd: vh c09 replay <vectors> <result> [variants]
-func replayCmd(args []string) error {
+// ReplayCmd: vh c09 replay <vectors> <result> [variants]
+func ReplayCmd(args []string) error {
 	if len(args) < 2 {
 		return fmt.Errorf("usage: replay <vectors> <result> [variants]")
 	}
